@@ -21,3 +21,10 @@ VARIANTS = [
     # twins
     V("twin-local-object", CORE + "adjoint.py", "        reverse_bm = ReverseBrownian(ctx.bm)\n", "        reverse_bm = ReverseBrownian(ctx.bm)\n        reverse_bm.tag = 'reverse'\n", expect="silent"),
 ]
+
+VARIANTS += [
+    V("interp-increment-form", "torchsde/_core/interp.py", "    y = (t1 - t) / (t1 - t0) * y0 + (t - t0) / (t1 - t0) * y1\n",
+      "    y = y0 + (t - t0) / (t1 - t0) * (y1 - y0)\n", rule="R12.8"),
+    V("twin-interp-weights", "torchsde/_core/interp.py", "    y = (t1 - t) / (t1 - t0) * y0 + (t - t0) / (t1 - t0) * y1\n",
+      "    w = (t - t0) / (t1 - t0)\n    y = (1 - w) * y0 + w * y1\n", expect="silent"),
+]
